@@ -104,6 +104,7 @@ def run(ck):
     ck.require(pops, "writesQueue.popSafe() not found in handleWriteQueue")
     for e in pops:
         okd, why = lib.drain_loop_check(hw, e)
+        ck.require(okd is not None, "%s: %s" % (hw.base, why))
         ck.ob("C06-R1", "handleWriteQueue/drains-until-empty", okd, e.loc, hw, why)
     # growth of the per-connection FIFOs
     for f in prog.funcs.values():
@@ -211,6 +212,35 @@ def run(ck):
     cfg.run_automaton(f, (0, False), step, edge=edge, start=dd[0].block, start_idx=dd[0].idx + 1)
     ck.ob("C06-R3", "asyncWriteImpl/deferred-consumed-once", not problems, dd[0].loc, f, "; ".join(sorted(set(problems))) or
           "resolve | reject | move-into-requeue exactly once on every iteration path; only the peer-gone arm drops it")
+    # ... and no entry leaves the FIFO before its deferred has been taken out of it: a removal that is not dominated by the move-out
+    # discards a queued write without settling it (the caller's promise is never settled, the bytes never reach the peer)
+    dom3 = cfg.dominators(f)
+    REMOVERS = ("pop_front", "pop_back", "erase", "clear")
+
+    def fifo_removal(ev):
+        if ev["k"] != "call":
+            return False
+        rv = ev.get("recv") or {}
+        nm = (ev.get("callee") or "").rsplit("::", 1)[-1]
+        return nm in REMOVERS and "WriteEntry" in ((rv.get("ty") or "") + (rv.get("rootT") or "") + (ev.get("callee") or "")) and "map<" not in (ev.get("callee") or "")
+    early = []
+    nrem = 0
+    for ev in f.events("call"):
+        if fifo_removal(ev):
+            nrem += 1
+            if not cfg.ev_dominates(dom3, dd[0], ev):
+                early.append(ev)
+        elif (ev.get("callee") or "").startswith("lambda@"):
+            for lf in prog.resolve_call(ev):
+                if lf.blocks and any(fifo_removal(x) for x in lf.events("call")):
+                    nrem += 1
+                    if not cfg.ev_dominates(dom3, dd[0], ev):
+                        early.append(ev)
+    ck.require(nrem >= 2, "asyncWriteImpl: removals from the per-connection FIFO found: %d" % nrem)
+    ck.ob("C06-R3", "asyncWriteImpl/no-entry-dropped-unsettled", not early, (early[0].loc if early else dd[0].loc), f,
+          "every removal from the FIFO happens after the head entry's deferred was moved out (and is then settled or re-queued)" if not early else
+          "the removal at line %s is reachable before the head entry's deferred is taken out: that queued write is discarded, its promise never "
+          "settled and its bytes never sent" % early[0].get("l"))
     # names are derived, not assumed: the progress variable is the local initialised from buffer.offset(); the per-call result is
     # the local assigned from the writer calls
     twd = [d for d in f.events("decl") if strip_tmpl(d.get("icall") or "") == T + "BufferHolder::offset"]
